@@ -431,7 +431,10 @@ inline void CheckWellFormed(const MessageRef & m, Stats & st)
    ByteBuffer bb; if (m()->FlattenToByteBuffer(bb).IsError()) Fail("delivered_message_unflattenable", "FlattenToByteBuffer failed on a delivered Message");
    if (bb.GetNumBytes() != fs) Fail("flattened_size_mismatch", "delivered Message: FlattenedSize()=" + U(fs) + " but Flatten wrote " + U(bb.GetNumBytes()));
    (void) m()->CalculateChecksum();
-   const String s = m()->ToString(); (void) s;
+   // the printing walk over every field and item.  Into a String only for small Messages: muscle's String grows a large buffer one page per realloc(), and ASan's
+   // realloc() always moves the block, so a multi-megabyte ToString() costs seconds of page faults that say nothing about a parser; large ones are printed to /dev/null
+   if (fs <= 65536) {const String s = m()->ToString(); (void) s;}
+   else {static FILE * nul = fopen("/dev/null", "w"); if (nul) m()->Print(OutputPrinter(nul)); else {const String s = m()->ToString(); (void) s;}}
    Message back; if (back.UnflattenFromByteBuffer(bb).IsError()) Fail("delivered_message_not_reparseable", "the re-serialised bytes of a delivered Message do not parse");
    ByteBuffer bb2; (void) back.FlattenToByteBuffer(bb2);
    if ((bb2.GetNumBytes() != bb.GetNumBytes())||(memcmp(bb2.GetBuffer(), bb.GetBuffer(), bb.GetNumBytes()) != 0)) Fail("delivered_message_unstable", "re-serialising a delivered Message twice gives different bytes");
@@ -558,7 +561,9 @@ inline void Exec(const Plan & plan, RunResult & res)
             uint32_t bl; memcpy(&bl, hs.data()+o, 4); if ((bl == 0)||((uint64_t) o+8+bl > hs.size())) break;
             uint8_t * exactBuf = new uint8_t[bl]; memcpy(exactBuf, hs.data()+o+8, bl);
             MMessage * mm = MMAllocMessage(0);
+            const uint64_t a0 = g_allocBytes;
             const c_status_t pr = MMUnflattenMessage(mm, exactBuf, bl); th.u((uint64_t) pr); st.inc("mini_direct_parses");
+            ac.Note(bl, g_allocBytes-a0);   // the allocation bound holds for a parse that ends in an error status too (what a declared count made it allocate before it noticed)
             if (pr == CB_NO_ERROR) {const uint32 fs = MMGetFlattenedSize(mm); std::string b(fs ? fs : 1, '\0'); MMFlattenMessage(mm, &b[0]); th.u(fs); st.inc("mini_direct_parse_ok");}
             MMFreeMessage(mm); delete [] exactBuf;
             o += 8+bl;
